@@ -260,7 +260,23 @@ def tapered_cases(rng):
     return out
 
 
+def arc_bad(n, a1, a2):
+    from mininec.mininec import Mininec, Arc
+    m = Mininec(10.0, [Arc(n, 1.0, a1, a2, 0.0005)])
+    g = m.geo[0]
+    lens = [float(np.linalg.norm(np.asarray(sg.p2) - np.asarray(sg.p1))) for sg in g.segments]
+    chord = 2.0 * math.sin(math.radians(abs(a2 - a1)) / n / 2)
+    if len(lens) != n or max(abs(x - chord) for x in lens) > 1e-9:
+        return ('arc of %d segments from %g to %g degrees has %d segments with lengths between %.3g and %.3g (chord %.6g)'
+                % (n, a1, a2, len(lens), min(lens), max(lens), chord))
+    return topo.pulse_geometry_bad(m) or property_on_impl(topo.observe_impl(m))
+
+
 def replay(rp):
+    if rp.get('kind') == 'arc-sweep':
+        bad = arc_bad(*rp['arc'])
+        print('replay arc', rp['arc'], '->', bad or 'property holds')
+        return 1 if bad else 0
     if rp.get('kind') == 'moved':
         from common import run_main
         mm = run_main(rp['argv'], want_mininec=True)['m']
@@ -294,6 +310,7 @@ def replay(rp):
 
 def run(ck):
     ck.proof_side()
+    ck.cov['further_clauses'] = 'arc sweep: user-like and random angle pairs with 3-64 segments (segment count, equal chords, pulse placement, pulse count)'
     d = ck.get_driver()
     n = 1500 if ck.tier == 'quick' else 20000
     dis = []
@@ -344,6 +361,30 @@ def run(ck):
         bad = topo.pulse_geometry_bad(m) or property_on_impl(obs)
         if bad:
             ck.violation(dict(kind='curved', name=name, observed=bad))
+            return
+    # open and closed arcs of many angle pairs and segment counts: the count follows the *requested* number of segments
+    # (every object has exactly that many segments of non-zero length, an open arc n − 1 pulses, a full circle n)
+    from mininec.mininec import Arc
+    rng = ck.rng
+    grid = [x for st in (5, 15, 30, 45) for x in range(-360, 721, st)]
+    for j in range(500 if ck.tier == 'quick' else 6000):
+        a1 = rng.choice(grid) if j % 4 else round(rng.uniform(-360, 360), rng.choice([0, 1, 3]))
+        span = rng.choice([30, 45, 60, 90, 120, 135, 150, 180, 210, 240, 270, 300, 330, 359, 360]) if j % 5 else round(rng.uniform(5, 360), 2)
+        a2 = a1 + span * rng.choice([1, -1])
+        n = rng.randint(3, 64)
+        try:
+            bad = arc_bad(n, a1, a2)
+        except Exception as e:
+            if isinstance(e, ValueError) and abs(a2 - a1) > 360.0:        # a hair more than a full circle in floating point
+                ck.count('arc_sweep_rejected_over_full_circle')
+                continue
+            ck.violation(dict(kind='arc-sweep', arc=[n, a1, a2], observed='arc rejected: %s: %s' % (type(e).__name__, e)))
+            return
+        ck.count('arc_sweep')
+        if j % 25 == 0:
+            ck.case(('arc-sweep', n, a1, a2), True)
+        if bad:
+            ck.violation(dict(kind='arc-sweep', arc=[n, a1, a2], observed=bad))
             return
     from common import run_main
     for kind, argv in moved_cases(ck.rng):
